@@ -356,4 +356,4 @@ def _obligations():
 
 
 def obligations():
-    return _obligations() + [effects_obligation("C15")]
+    return _obligations() + [labels_obligation("C15"), effects_obligation("C15")]
